@@ -79,6 +79,8 @@ class Interp:
             if isinstance(a, (int, float)) and isinstance(b, (int, float)):
                 return z3.BoolVal(a == b)
             raise Unsupported("== on float")
+        if isinstance(a, (str, int, bool, type(None))) and isinstance(b, (str, int, bool, type(None))):
+            return z3.BoolVal(a == b)
         ea, eb = common(a, b)
         if ea is None:
             return z3.BoolVal(False)
@@ -381,11 +383,10 @@ class Interp:
         raise Unsupported(f"call of {type(f).__name__}")
 
     def instantiate(self, cls: ClassInfo, args, kw):
-        hook = getattr(self, "on_instantiate", None)
-        if hook:
-            r = hook(cls, args, kw)
-            if r is not NotImplemented:
-                return r
+        qn = cls.qualname + ".__init__"
+        con = self.ctx.contracts.get(qn)
+        if con is not None and qn != getattr(self, "under_verification", None):
+            return con.apply(self, list(args), kw)
         inst = Instance(cls)
         ext = cls.external_bases()
         if "list" in ext:
@@ -433,7 +434,7 @@ class Interp:
     def call_function(self, fv: FuncVal, args, kw):
         qn = fv.qualname
         con = self.ctx.contracts.get(qn)
-        if con is not None and (self.frames or False) and qn != getattr(self, "under_verification", None):
+        if con is not None and qn != getattr(self, "under_verification", None):
             return con.apply(self, args, kw)
         if len(self.frames) > self.MAX_DEPTH:
             raise Unsupported(f"call depth exceeded at {qn}")
@@ -785,7 +786,7 @@ class Interp:
                 items.extend(self.dict_items(self.eval(v)))
             else:
                 items.append((self.eval(k), self.eval(v)))
-        if all(isinstance(k, (str, int)) and not isinstance(k, bool) for k, _ in items):
+        if items and all(isinstance(k, (str, int)) and not isinstance(k, bool) for k, _ in items):
             return dict(items)
         return AssocDict(items)
 
@@ -960,7 +961,11 @@ class Interp:
         kw = {}
         for k in e.keywords:
             if k.arg is None:
-                kw.update(dict(self.dict_items(self.eval(k.value))))
+                dv = self.eval(k.value)
+                if isinstance(dv, SymDict) or (isinstance(dv, AssocDict) and any(not isinstance(kk, str) for kk, _ in dv.items)):
+                    kw["__symkw__"] = dv
+                else:
+                    kw.update(dict(self.dict_items(dv)))
             else:
                 kw[k.arg] = self.eval(k.value)
         return self.call(f, args, kw)
@@ -1015,12 +1020,50 @@ class Interp:
     def e_SetComp(self, e):
         raise Unsupported("set comprehension")
 
+    def symdict_comp(self, e):
+        """{k: f(k, v) for k, v in D.items() if c(k, v)} over a symbolic dict D -> symbolic dict defined by
+        z3 lambdas (no loop, no invariant needed; the body must be pure)."""
+        if len(e.generators) != 1:
+            return NotImplemented
+        g = e.generators[0]
+        src = self.eval(g.iter)
+        if isinstance(src, Instance) and src.store is not None:
+            src = src.store
+        if isinstance(src, SymDict):
+            src = src.do_keys(self)
+        if not (isinstance(src, SymList) and getattr(src, "src_dict", None) is not None):
+            return NotImplemented
+        D = src.src_dict
+        kv = z3.Const("k!comp", D.ksort)
+        fr = self._comp_frame()
+        self.frames.append(fr)
+        self.pure += 1
+        try:
+            if src.src_kind == "items":
+                self.assign(g.target, (Sym(kv), D.wrap(z3.Select(D.val, kv))))
+            else:
+                self.assign(g.target, Sym(kv))
+            conds = [self.as_formula(self.eval(c)) for c in g.ifs]
+            key = self.eval(e.key)
+            if not (isinstance(key, Sym) and key.e.eq(kv)):
+                raise Unsupported("dict comprehension that renames keys")
+            val = self.eval(e.value)
+        finally:
+            self.pure -= 1
+            self.frames.pop()
+        dom = z3.Lambda([kv], AND(z3.Select(D.dom, kv), *conds))
+        ve = getattr(val, "e", None)
+        if ve is None:
+            ve = to_z3(val)
+        if ve.eq(z3.Select(D.val, kv)):
+            return SymDict(dom, D.val, D.ksort, D.vsort, D.wrap)
+        if ve.sort() == Val or True:
+            return SymDict(dom, z3.Lambda([kv], ve), D.ksort, ve.sort())
+
     def e_DictComp(self, e):
-        h = getattr(self, "comp_hook", None)
-        if h:
-            r = h(e)
-            if r is not NotImplemented:
-                return r
+        r = self.symdict_comp(e)
+        if r is not NotImplemented:
+            return r
         out = []
         self.frames.append(self._comp_frame())
         try:
